@@ -59,14 +59,34 @@ def reset_run_state():
     pb = setup_imports()
     _install_uuid()
     _UUID["n"] = 0
-    pb.utils.next_fast_len.cache_clear()
-    pb.utils.prev_fast_len.cache_clear()
+    clear_library_caches(pb)
     return pb
 
 
+_CACHE_CLEARERS = []
+
+
 def clear_library_caches(pb):
-    pb.utils.next_fast_len.cache_clear()
-    pb.utils.prev_fast_len.cache_clear()
+    """Every functools cache found in the library (module level or on classes): memoised
+    state must not travel from one run, or one injected execution, to the next."""
+    if not _CACHE_CLEARERS:
+        found = []
+        for name, mod in list(sys.modules.items()):
+            if not name.startswith("pulsarbat") or mod is None:
+                continue
+            for v in list(vars(mod).values()):
+                cc = getattr(v, "cache_clear", None)
+                if callable(cc):
+                    found.append(cc)
+                elif isinstance(v, type) and getattr(v, "__module__", "").startswith("pulsarbat"):
+                    for w in list(vars(v).values()):
+                        w = getattr(w, "__func__", w)
+                        cc = getattr(w, "cache_clear", None)
+                        if callable(cc):
+                            found.append(cc)
+        _CACHE_CLEARERS.append(found)
+    for cc in _CACHE_CLEARERS[0]:
+        cc()
 
 
 class Violation(Exception):
